@@ -823,6 +823,10 @@ static void case_names(int k)
     }
     long st, re;
     int ok = do_name(nm_api, nm_len, nm_path, &st, &re, 1);
+    if (!ok) { /* a refused name leaves no trace: the object keeps its (empty) name */
+        if (re > 0) hk_fail("limits-refused-name-stored", "%s(%ld) was refused but a %ld-character name is in the file", apiname[nm_api], nm_len, re);
+        st = re = -1;
+    }
     printf("T limits name %s %ld => %s %ld %ld\n", apiname[nm_api], nm_len, ok ? "ok" : "fail", st, re);
     if (ok && st >= 0 && re >= 0 && st != re) {
         char key[96];
